@@ -20,16 +20,23 @@
 (* (DHTNodeParams.Now) that is the current one or the next:                 *)
 (*    AddPeer RemovePeer Put HandlePut, and Tick (the clock advances and a  *)
 (*    read-only method is called).                                          *)
-(* Every public method first PURGES both caches (Cache.Expire(now)): this   *)
-(* is the repaired behaviour -- before, nothing ever expired (Cache.Get     *)
-(* ignores its `now` argument and DHTNode never called Expire).  The read-  *)
-(* only methods are state functions (GetPeer, ListPeers, ListNodeInfos, Get,*)
-(* WouldAdd, Count, HandleGet, HandleFindNode, closerNodes) whose laws are  *)
-(* invariants.                                                              *)
+(* The read-only methods are state functions (GetPeer, ListPeers,           *)
+(* ListNodeInfos, Get, WouldAdd, Count, HandleGet, HandleFindNode,          *)
+(* closerNodes) whose laws are invariants.                                  *)
 (*                                                                         *)
-(* Orig \subseteq {"noexpire","remove","accept0","ttlovf","closer"} turns   *)
-(* on the behaviour BEFORE the corresponding repair (anti-vacuity self-     *)
-(* tests DHTNode_orig_*.cfg: the laws must fail in such a model).           *)
+(* KF_NeverExpires (AS CODED, recorded finding G05:TTLHonoured:dhtnode/     *)
+(* never-expires): nothing ever expires in a DHTNode.  Cache.Get ignores    *)
+(* its `now` argument and DHTNode never calls Cache.Expire, so peers and    *)
+(* values stay visible (and counted, and occupy capacity) past ExpiresAt.   *)
+(* The INTENDED behaviour ("purge" \in Orig: every method first drops the   *)
+(* entries whose ExpiresAt is before now) satisfies TTLHonoured             *)
+(* (DHTNode_purge.cfg); the as-coded model violates it (DHTNode_kf_ttl.cfg).*)
+(* All other laws are stated so that an entry past its implied expiry is a  *)
+(* don't-care: it may stay (TTLHonoured reports it) or vanish at any call.  *)
+(*                                                                         *)
+(* Orig \subseteq {"remove","accept0","ttlovf","closer","purge"}: the first *)
+(* four turn on the behaviour BEFORE the corresponding repair (anti-vacuity *)
+(* self-tests DHTNode_orig_*.cfg: the laws must fail in such a model).      *)
 (*                                                                         *)
 (* Law operators (suffix P / the sets ObsLaws, NodeStepLaws) mention only       *)
 (* observables: the maps id->info and key->value as returned by GetPeer /   *)
@@ -84,8 +91,9 @@ ASSUME /\ LocalID \in PeerIDs
 Proj(C) == [k \in DOMAIN C.E |-> C.E[k].v]
 ExpOf(C) == [k \in DOMAIN C.E |-> C.E[k].e]
 
-\* purge (dht_node.go): peers.Expire(nil, now); data.Expire(nil, now)
-PurgeC(C, t) == IF "noexpire" \in Orig THEN C ELSE ExpireC(C, t)
+\* as coded: no method of DHTNode removes expired entries (the intended variant would: Cache.Expire(nil, now) first)
+KF_NeverExpires == "purge" \notin Orig
+PurgeC(C, t) == IF KF_NeverExpires THEN C ELSE ExpireC(C, t)
 
 \* HandlePut's ttl (dht_node.go): min(TTLms, MaxDataTTL), computed without overflow
 EffTTL(ttl) == IF ttl = Huge /\ "ttlovf" \in Orig THEN -50
@@ -140,9 +148,13 @@ NextPx(px, c) == IF c.op = "addpeer" /\ c.key # LocalID
 LawTTL(c) == IF c.op = "hput" THEN (IF c.ttl > MaxDataTTL THEN MaxDataTTL ELSE c.ttl) ELSE c.ttl
 NextDx(dx, c) == IF c.op \in {"put", "hput"}
                  THEN [k \in (DOMAIN dx) \cup {c.key} |-> IF k = c.key THEN c.t + LawTTL(c) ELSE dx[k]] ELSE dx
-\* seniority implied by the inputs: AddPeer of a known (live) peer keeps it, every put starts afresh (CreatedAt)
-NextPb(pb, lp, c) == IF c.op = "addpeer" /\ c.key # LocalID /\ c.key \notin lp
-                     THEN [k \in (DOMAIN pb) \cup {c.key} |-> IF k = c.key THEN c.t ELSE pb[k]] ELSE pb
+\* seniority implied by the inputs: AddPeer of a known peer keeps it, every put starts afresh (CreatedAt).
+\* ap = the ids present before the call, lp = those of them not past their expiry; the seniority of a peer that
+\* is re-added while present but past its expiry is not determined (kept as coded, fresh if it had been purged)
+NextPb(pb, ap, lp, c) == IF c.op = "addpeer" /\ c.key # LocalID /\ c.key \notin lp
+                         THEN IF c.key \in ap THEN [k \in (DOMAIN pb) \ {c.key} |-> pb[k]]
+                              ELSE [k \in (DOMAIN pb) \cup {c.key} |-> IF k = c.key THEN c.t ELSE pb[k]]
+                         ELSE pb
 NextDb(db, c) == IF c.op \in {"put", "hput"}
                  THEN [k \in (DOMAIN db) \cup {c.key} |-> IF k = c.key THEN c.t ELSE db[k]] ELSE db
 
@@ -182,7 +194,7 @@ Do(o) ==
                       ret |-> out.ret, acc |-> out.acc, closer |-> out.closer]
     /\ now' = o.t
     /\ gpx' = NextPx(gpx, o) /\ gdx' = NextDx(gdx, o)
-    /\ gpb' = NextPb(gpb, DOMAIN PurgeC(P, o.t).E, o) /\ gdb' = NextDb(gdb, o)
+    /\ gpb' = NextPb(gpb, DOMAIN P.E, {k \in DOMAIN P.E : ~Expired(P.E[k], o.t)}, o) /\ gdb' = NextDb(gdb, o)
     /\ nops' = nops + 1
     /\ UNCHANGED <<pmax, dmax, cmax, cmin, ents, nb, minExp, count, panicked>>
 
@@ -207,7 +219,10 @@ NodeObs(Pc, Dc, pmx, dmx) ==
                                   [v |-> GetC(Dc, q), s |-> s, si |-> [i \in 1..Len(s) |-> pm[s[i]]]]],
      find |-> [x \in Targets \X Limits |-> FindNodeOf(Pc, x[1], x[2])],
      infos |-> [x \in Targets \X Limits |-> ListNodeInfosOf(Pc, x[1], x[2])],
-     would |-> [k \in DataKeys |-> WouldAddC2(Dc, dmx, DataMin, k)]]
+     would |-> [k \in DataKeys |-> WouldAddC2(Dc, dmx, DataMin, k)],
+     \* (through the verif hook DHTNode.VerifCaches + Cache.VerifDump: CreatedAt and ExpiresAt of every entry)
+     pst |-> [k \in DOMAIN Pc.E |-> [c |-> Pc.E[k].c, e |-> Pc.E[k].e]],
+     dst |-> [k \in DOMAIN Dc.E |-> [c |-> Dc.E[k].c, e |-> Dc.E[k].e]]]
 
 -----------------------------------------------------------------------------
 (* LAWS over one observation o (a record shaped like NodeObs)               *)
@@ -230,7 +245,7 @@ ListPeersP(pm, limit, s) == /\ Len(s) = (IF limit > 0 THEN Min2(limit, Cardinali
                             /\ ToSet(s) \subseteq DOMAIN pm /\ Distinct(s)
 
 ObsLawNames == {"CountIsData", "Bounded", "SelfNeverPeer", "HasIsGetPeer", "ListPeers", "HandleGetIsGet",
-                "CloserSound", "CloserComplete", "CloserInfo", "FindNode", "FindNodeCap", "ListNodeInfos", "WouldAddAbsentOnly"}
+                "CloserSound", "CloserComplete", "CloserInfo", "FindNode", "FindNodeCap", "ListNodeInfos", "WouldAddAbsentOnly", "DumpIsObserved"}
 ObsLaws(o, pmx, dmx) ==
     {nm \in ObsLawNames :
         CASE nm = "CountIsData" -> o.count # Cardinality(DOMAIN o.data)
@@ -246,7 +261,9 @@ ObsLaws(o, pmx, dmx) ==
           [] nm = "FindNode" -> \E x \in DOMAIN o.find : x[2] <= 10 /\ ~NearestNP(o.peers, x[1], x[2], o.find[x])
           [] nm = "FindNodeCap" -> \E x \in DOMAIN o.find : x[2] > 10 /\ ~NearestNP(o.peers, x[1], 10, o.find[x])
           [] nm = "ListNodeInfos" -> \E x \in DOMAIN o.infos : ~NearestNP(o.peers, x[1], x[2], o.infos[x])
-          [] nm = "WouldAddAbsentOnly" -> \E k \in DOMAIN o.would : o.would[k] /\ k \in DOMAIN o.data}
+          [] nm = "WouldAddAbsentOnly" -> \E k \in DOMAIN o.would : o.would[k] /\ k \in DOMAIN o.data
+          \* the caches hold exactly what GetPeer / Get show
+          [] nm = "DumpIsObserved" -> DOMAIN o.pst # DOMAIN o.peers \/ DOMAIN o.dst # DOMAIN o.data}
 
 -----------------------------------------------------------------------------
 (* LAWS over one call: observation before (o1, with the expiry times px1,   *)
@@ -267,53 +284,68 @@ NoCloserVictimC(S, v, mn) == LET cnt(i) == Cardinality({k \in S : Bucket(k) = i}
                              \A k \in S \ {v} : Bucket(k) < Bucket(v) => cnt(Bucket(k)) <= mn
 
 NodeStepLawNames == {"TTLHonoured", "OnlyExpiredVanish", "PeerLegalDisappear", "PeerOnlyAdds", "AddPeerReturn", "AddPeerStores",
-                 "PeerInfoLatest", "RemoveExact", "PeerVictim", "PeerVictimNewest", "DataVictimNewest", "DataLegalDisappear", "DataOnlyAdds", "ValueLatest",
-                 "PutReturn", "PutStores", "AcceptedIffStored", "HandlePutCloser", "DataVictim", "WouldAddSound"}
+                     "PeerInfoLatest", "RemoveExact", "PeerVictim", "PeerVictimNewest", "DataVictimNewest", "DataLegalDisappear",
+                     "DataOnlyAdds", "ValueLatest", "PutReturn", "PutStores", "AcceptedIffStored", "HandlePutCloser", "DataVictim",
+                     "WouldAddSound", "ExpiryStamp", "CreatedStamp"}
 NodeStepLaws(o1, px1, dx1, pb1, db1, c, r, o2, pmx, dmx) ==
     LET t == c.t
         px2 == NextPx(px1, c)
         dx2 == NextDx(dx1, c)
-        lp == Live(o1.peers, px1, t)
+        ap == DOMAIN o1.peers                   \* present before the call
+        ad == DOMAIN o1.data
+        lp == Live(o1.peers, px1, t)            \* ... and not past their implied expiry at the call's clock value
         ld == Live(o1.data, dx1, t)
+        sp == ap \ lp                           \* stale: may stay (TTLHonoured) or vanish at any call
+        sd == ad \ ld
         isP == c.op \in {"addpeer", "rmpeer"}
         isD == c.op \in {"put", "hput"}
         pv == Victims(lp, o2.peers, c, {"addpeer"}) \ (IF c.key = LocalID THEN {LocalID} ELSE {})
         dv == Victims(ld, o2.data, c, {"put", "hput"})
         k == c.key
-        pb2 == NextPb(pb1, lp, c)
+        pb2 == NextPb(pb1, ap, lp, c)
         db2 == NextDb(db1, c)
     IN {nm \in NodeStepLawNames :
         CASE
-          \* nothing is served past its time to live; the clock is DHTNodeParams.Now and nothing else
+          \* nothing is served past its time to live
              nm = "TTLHonoured" -> \/ \E p \in DOMAIN o2.peers : p \notin DOMAIN px2 \/ px2[p] < t
                                    \/ \E q \in DOMAIN o2.data : q \notin DOMAIN dx2 \/ dx2[q] < t
-          \* a call that does not touch a cache leaves exactly its live entries, with their values
-          [] nm = "OnlyExpiredVanish" -> \/ (~isP /\ o2.peers # Restrict(o1.peers, lp))
-                                         \/ (~isD /\ o2.data # Restrict(o1.data, ld))
+          \* a call that does not touch a cache leaves its live entries, adds nothing and changes no value
+          [] nm = "OnlyExpiredVanish" ->
+                 \/ (~isP /\ ~(/\ lp \subseteq DOMAIN o2.peers /\ DOMAIN o2.peers \subseteq ap
+                                /\ \A p \in DOMAIN o2.peers : o2.peers[p] = o1.peers[p]))
+                 \/ (~isD /\ ~(/\ ld \subseteq DOMAIN o2.data /\ DOMAIN o2.data \subseteq ad
+                                /\ \A q \in DOMAIN o2.data : o2.data[q] = o1.data[q]))
           [] nm = "PeerLegalDisappear" -> isP /\ \E p \in lp \ DOMAIN o2.peers :
                                               ~(\/ c.op = "rmpeer" /\ k = p
                                                 \/ c.op = "addpeer" /\ k # p /\ k \notin lp /\ k # LocalID)
-          [] nm = "PeerOnlyAdds" -> \E p \in (DOMAIN o2.peers) \ lp : ~(c.op = "addpeer" /\ k = p)
-          \* AddPeer returns true exactly when the id was not a (live) peer and is one now; never for the own id
-          [] nm = "AddPeerReturn" -> c.op = "addpeer" /\ r.ret # (k \notin lp /\ k \in DOMAIN o2.peers)
+          [] nm = "PeerOnlyAdds" -> \E p \in (DOMAIN o2.peers) \ ap : ~(c.op = "addpeer" /\ k = p)
+          \* AddPeer returns true exactly when the id was not a peer and is one now; never for the own id
+          [] nm = "AddPeerReturn" -> c.op = "addpeer" /\
+                                        IF k \in sp THEN r.ret /\ k \notin DOMAIN o2.peers
+                                        ELSE r.ret # (k \notin lp /\ k \in DOMAIN o2.peers)
           \* refreshing a known peer never loses it; whoever is stored carries the given info
           [] nm = "AddPeerStores" -> c.op = "addpeer" /\ \/ (k \in lp /\ k \notin DOMAIN o2.peers)
                                                          \/ (k \in DOMAIN o2.peers /\ o2.peers[k] # c.v)
-          [] nm = "PeerInfoLatest" -> \E p \in lp \cap DOMAIN o2.peers : o2.peers[p] # o1.peers[p] /\ ~(c.op = "addpeer" /\ k = p)
-          [] nm = "RemoveExact" -> c.op = "rmpeer" /\ \/ r.ret # (k \in lp)
-                                                      \/ DOMAIN o2.peers # lp \ {k}
-          \* eviction: only when full, at most one victim, never one closer to the locus than a kept entry outside the minimum
+          [] nm = "PeerInfoLatest" -> \E p \in ap \cap DOMAIN o2.peers : o2.peers[p] # o1.peers[p] /\ ~(c.op = "addpeer" /\ k = p)
+          [] nm = "RemoveExact" -> c.op = "rmpeer" /\ \/ k \in DOMAIN o2.peers
+                                                      \/ (k \notin sp /\ r.ret # (k \in lp))
+                                                      \/ ~(lp \ {k} \subseteq DOMAIN o2.peers /\ DOMAIN o2.peers \subseteq ap \ {k})
+          \* eviction: only when full, at most one live victim, never one closer to the locus than a kept entry outside the
+          \* minimum (the buckets counted with or without the stale entries)
           [] nm = "PeerVictim" -> c.op = "addpeer" /\ pv # {} /\
                                      ~(/\ Cardinality(pv) = 1
-                                       /\ Cardinality(lp \cup {k}) > pmx
-                                       /\ NoCloserVictimC(lp \cup {k}, CHOOSE v \in pv : TRUE, PeerMin))
+                                       /\ Cardinality(ap \cup {k}) > pmx
+                                       /\ LET v == CHOOSE v \in pv : TRUE IN
+                                          NoCloserVictimC(ap \cup {k}, v, PeerMin) \/ NoCloserVictimC(lp \cup {k}, v, PeerMin))
           [] nm = "PeerVictimNewest" -> c.op = "addpeer" /\ Cardinality(pv) = 1 /\ ~VictimNewestC(lp \cup {k}, CHOOSE v \in pv : TRUE, pb2)
           [] nm = "DataVictimNewest" -> isD /\ Cardinality(dv) = 1 /\ ~VictimNewestC(ld \cup {k}, CHOOSE v \in dv : TRUE, db2)
           [] nm = "DataLegalDisappear" -> isD /\ \E q \in ld \ DOMAIN o2.data : ~(k # q /\ k \notin ld)
-          [] nm = "DataOnlyAdds" -> \E q \in (DOMAIN o2.data) \ ld : ~(isD /\ k = q)
+          [] nm = "DataOnlyAdds" -> \E q \in (DOMAIN o2.data) \ ad : ~(isD /\ k = q)
           \* a stored value changes only by a put of that very key, to the value put (never another key's value)
-          [] nm = "ValueLatest" -> \E q \in ld \cap DOMAIN o2.data : o2.data[q] # o1.data[q] /\ ~(isD /\ k = q)
-          [] nm = "PutReturn" -> c.op = "put" /\ r.ret # (k \notin ld /\ k \in DOMAIN o2.data)
+          [] nm = "ValueLatest" -> \E q \in ad \cap DOMAIN o2.data : o2.data[q] # o1.data[q] /\ ~(isD /\ k = q)
+          [] nm = "PutReturn" -> c.op = "put" /\
+                                    IF k \in sd THEN r.ret /\ k \notin DOMAIN o2.data
+                                    ELSE r.ret # (k \notin ld /\ k \in DOMAIN o2.data)
           \* overwriting a live key is never refused; whatever is stored under the key is the value put
           [] nm = "PutStores" -> isD /\ \/ (k \in ld /\ k \notin DOMAIN o2.data)
                                         \/ (k \in DOMAIN o2.data /\ o2.data[k] # c.v)
@@ -322,11 +354,18 @@ NodeStepLaws(o1, px1, dx1, pb1, db1, c, r, o2, pmx, dmx) ==
           [] nm = "HandlePutCloser" -> c.op = "hput" /\ ~(CloserSoundP(o2.peers, k, r.closer) /\ CloserCompleteP(o2.peers, k, r.closer))
           [] nm = "DataVictim" -> isD /\ dv # {} /\
                                      ~(/\ Cardinality(dv) = 1
-                                       /\ Cardinality(ld \cup {k}) > dmx
-                                       /\ NoCloserVictimC(ld \cup {k}, CHOOSE v \in dv : TRUE, DataMin))
+                                       /\ Cardinality(ad \cup {k}) > dmx
+                                       /\ LET v == CHOOSE v \in dv : TRUE IN
+                                          NoCloserVictimC(ad \cup {k}, v, DataMin) \/ NoCloserVictimC(ld \cup {k}, v, DataMin))
           \* WouldAdd said yes (at this clock value) => the put is kept.  (capacity 0: recorded as G02 ... would/zero-cap)
           [] nm = "WouldAddSound" -> isD /\ dmx > 0 /\ k \in DOMAIN o1.would /\ o1.would[k] /\ ld = DOMAIN o1.data
-                                         /\ k \notin DOMAIN o2.data}
+                                         /\ k \notin DOMAIN o2.data
+          \* the stamps the caches hold come from DHTNodeParams.Now: ExpiresAt = the call's clock value + MaxPeerTTL /
+          \* the put's ttl / min(TTLms, MaxDataTTL); CreatedAt = the clock value of the AddPeer that introduced the peer / of the put
+          [] nm = "ExpiryStamp" -> \/ \E p \in DOMAIN o2.pst : p \notin DOMAIN px2 \/ o2.pst[p].e # px2[p]
+                                   \/ \E q \in DOMAIN o2.dst : q \notin DOMAIN dx2 \/ o2.dst[q].e # dx2[q]
+          [] nm = "CreatedStamp" -> \/ \E p \in (DOMAIN o2.pst) \cap DOMAIN pb2 : o2.pst[p].c # pb2[p]
+                                    \/ \E q \in (DOMAIN o2.dst) \cap DOMAIN db2 : o2.dst[q].c # db2[q]}
 
 -----------------------------------------------------------------------------
 (* Invariants and action properties of the model *)
@@ -334,7 +373,7 @@ NodeStepLaws(o1, px1, dx1, pb1, db1, c, r, o2, pmx, dmx) ==
 NodeTypeOK == /\ DOMAIN P.E \subseteq PeerIDs /\ DOMAIN D.E \subseteq DataKeys
               /\ now \in 1..MaxNow /\ P.n \in 0..NBuckets /\ D.n \in 0..NBuckets
 
-\* every reachable state is purged at its clock value (each call purges first)
+\* the intended variant: every reachable state is purged at its clock value (each call purges first)
 Purged == \A k \in DOMAIN P.E : ~Expired(P.E[k], now)
 Purged2 == \A k \in DOMAIN D.E : ~Expired(D.E[k], now)
 
@@ -349,12 +388,16 @@ CachesOK ==
 \* the expiry times the caches hold are the ones the inputs imply
 GhostAgrees == /\ \A k \in DOMAIN P.E : k \in DOMAIN gpx /\ gpx[k] = P.E[k].e
                /\ \A k \in DOMAIN D.E : k \in DOMAIN gdx /\ gdx[k] = D.E[k].e
-               /\ \A k \in DOMAIN P.E : k \in DOMAIN gpb /\ gpb[k] = P.E[k].c
+               /\ \A k \in (DOMAIN P.E) \cap DOMAIN gpb : gpb[k] = P.E[k].c
                /\ \A k \in DOMAIN D.E : k \in DOMAIN gdb /\ gdb[k] = D.E[k].c
 
 ObsLawsHold == ObsLaws(NodeObs(P, D, pmax, dmax), pmax, dmax) = {}
 
-NodeStepLawsHold ==
-    NodeStepLaws(NodeObs(P, D, pmax, dmax), gpx, gdx, gpb, gdb, last', last', NodeObs(P', D', pmax, dmax), pmax, dmax) = {}
+\* the recorded finding is excused in the as-coded model (and only there)
+KnownLaws == IF KF_NeverExpires THEN {"TTLHonoured"} ELSE {}
+StepViolations == NodeStepLaws(NodeObs(P, D, pmax, dmax), gpx, gdx, gpb, gdb, last', last', NodeObs(P', D', pmax, dmax), pmax, dmax)
+NodeStepLawsHold == StepViolations \ KnownLaws = {}
 NodeStepLawsProp == [][NodeStepLawsHold]_nvars
+\* the law of the finding alone (violated by the as-coded model: DHTNode_kf_ttl.cfg; satisfied by the intended one)
+TTLHonouredProp == [][ "TTLHonoured" \notin StepViolations ]_nvars
 =============================================================================
